@@ -32,7 +32,11 @@ let sig_of_code = function
   | 7 -> "sig=body-bytes-wrong bodyBytes (what a resend replays) is not the wire's body: it must end where the trailer fields begin"
   | _ -> "sig=unclassified"
 
-let run (_prop : string) (inp : Sx.t) (obs : Sx.t) : outcome =
+let run (_prop : string) (inp : Sx.t) (obs0 : Sx.t) : outcome =
+  (* (reused obs): the parse into a Message object that an earlier parse had used gave something else than the parse into
+     a new object; the specification predicate then judges what the reused object exposes, and the comparison with the
+     model (which is the parse into a new object) fails by construction *)
+  let reused, obs = match obs0 with Sx.L [Sx.A "reused"; o] -> (true, o) | o -> (false, o) in
   let fs_opt, raw, tdx, adx = match inp with
     | Sx.L [Sx.A "fields"; fs; td; ad] -> let l = list_sx (pair_sx z_sx bytes_sx) fs in (Some l, ser l, td, ad)
     | Sx.L [Sx.A "raw"; b; td; ad] -> (None, bytes_sx b, td, ad)
@@ -86,8 +90,9 @@ let run (_prop : string) (inp : Sx.t) (obs : Sx.t) : outcome =
               let lw = String.length want and lr = String.length rw in
               if tb <> [] && (lw > lr || String.sub rw (lr - lw) lw <> want) then 7 else 0
           | _ -> 0 in
-        if c1 <> 0 then false, sig_of_code c1 else if c2 <> 0 then false, sig_of_code c2
-        else if c3 <> 0 then false, sig_of_code c3 else true, "" in
+        let sg c = sig_of_code c ^ (if reused then " (parsed into a Message object that an earlier parse had used; a new object gives the model's result)" else "") in
+        if c1 <> 0 then false, sg c1 else if c2 <> 0 then false, sg c2
+        else if c3 <> 0 then false, sg c3 else true, "" in
   let dict = (match td, ad with None, None -> "nodict" | None, Some _ -> "app" | Some _, None -> "transport" | Some _, Some _ -> "transport+app") in
   let cls = (match fs_opt with Some _ -> if wire_ok then "fields:wire_ok" else "fields:other" | None -> "raw")
             ^ ":" ^ dict ^ ":" ^ (match model with Sx.A a -> a | _ -> "ok") in
